@@ -133,6 +133,15 @@ def check(run, driver):
         if not np.isfinite(val) or abs(val - ref) > (1e-6 + 1e-6 * abs(ref) if it % 2 else 1e-8 + 1e-8 * abs(ref)):
             run.prop_fail("Gaussian (conditional) MI differs from the partial-covariance closed form on a well-conditioned sample", case,
                           {"estimator": "gaussian", "kz": kz, "clause": "closed_form", "regime": case["regime"]}, {"impl": val, "reference": ref})
+    # ---- history: same buffers refilled in place between two calls
+    from common import reuse_check
+    for it in range(12 if thorough else 5):
+        N = int(rng.integers(12, 30)); kz = it % 3
+        A1, A2 = rng.standard_normal((N, 2 + kz)), rng.standard_normal((N, 2 + kz)) @ (rng.standard_normal((2 + kz, 2 + kz)) * 0.5 + np.eye(2 + kz))
+        sp = lambda W: (W[:, :1], W[:, 1:2], W[:, 2:] if kz else None)
+        run.case("history", [N, kz, float(A1[0, 0])], True)
+        reuse_check(run, "gaussian (conditional) mutual information", lambda x, y, z: float(gaussian_conditional_mutual_information(x, y, z)), sp(A1), sp(A2), {"estimator": "gaussian", "clause": "purity"})
+        reuse_check(run, "dispatcher('gaussian')", lambda x, y, z: float(conditional_mutual_information(x, y, z, method="gaussian")), sp(A1), sp(A2), {"estimator": "gaussian", "clause": "purity"})
     worst = 0.0
     for (case, val), r in zip(meta, driver.run_sharded(reqs, shards=16)):
         if "ok" not in r:
